@@ -12,11 +12,34 @@ T = {}
 def t(pid, text, note, tech):
     T[pid] = (text, note, tech)
 
-t("C01", "Lean theorems add_sub_spec / checked_add_sub_spec / add_sub_int_spec / checked_add_sub_int_spec / add_sub_value: for ALL operands in the domain the model of + - checked_add checked_sub (Decimal and integer operand bodies) returns exactly the aligned exact sum with max(p,q) digits or the overflow signal, never another panic. Model tied to the code by regenerated constants, site skeleton ties and a 20k/400k-vector differential run.",
-  TB, "Lean 4 theorem (model ⊑ spec, all inputs) + translator tie + differential correspondence")
-for pid in ["C02","C03","C04","C05","C06","C07","C08","C09","C10","C11","C12","C13","C14","C15","C16","C17","C18","C19","C20"]:
-    t(pid, "Lean proof obligations for this property (see Fpdec/Props/%s.lean: site/constant ties proved by kernel evaluation, property theorems as listed in the evidence file) plus the executable model/spec pair: the implementation output is compared with the model (tie) and with the independent spec (property) on structured vectors." % pid,
-      TB, "Lean 4 theorems over the executable model + translator tie + differential correspondence")
+COMMON = (" The hand-written model is tied to the current source on every run: constants/tables are re-extracted (Gen/Consts.lean), the "
+          "flavour skeleton of every anchor file is re-extracted and proved equal to the pinned one (Gen/Sites.lean, tie_sites_*), and "
+          "the real crate and the compiled model answer the same structured request stream (impl vs model = tie, impl vs spec = property).")
+TECH = "Lean 4 theorems (model ⊑ spec for all inputs, all profiles) + regenerated translator ties + differential correspondence"
+D = {
+ "C01": "add_sub_spec / checked_add_sub_spec / add_sub_int_spec / checked_add_sub_int_spec / add_sub_value: for ALL operands of the domain + - checked_add checked_sub (Decimal and integer bodies) return exactly the aligned exact sum with max(p,q) digits or the overflow signal (panic / None), never another panic; no profile dependence (no plain arithmetic left).",
+ "C02": "mul_spec / checked_mul_spec / mul_int_spec / checked_mul_int_spec / checkedMulRounded_spec: zero/one short cuts, exact product with p+q digits for p+q<=18, else the exact product rounded once to 18 digits under the thread mode on both the 128-bit and the 256-bit path, overflow exactly when the result does not fit; the 256-bit helper's specification is proved in C16.",
+ "C03": "div_spec / checked_div_spec / div_dec_int_spec / div_int_dec_spec / normalize_spec: the exact quotient rounded once to 18 digits (kernel theorem of C04 with n=18), trailing zeros stripped exactly, divisor-one and zero short cuts, zero divisor -> panic/None, overflow only when the rounded quotient does not fit.",
+ "C04": "checkedDivRounded_spec (all four scaling branches; the repaired divisor-scaled branch via specRound_two_step), div_rounded_spec + guarded integer shapes, mul_rounded_spec, four quantize theorems; the unguarded int/int shape is proved for n<=18 only (div_rounded_int_int_partial) with the Lean witness of the open known finding D8.",
+ "C05": "kernel_spec (i128_div_rounded = Spec.specRoundQ for all 8 modes, all in-range n, d != 0), spec_table (the spec agrees with Python-decimal outcomes on the complete class grid), round_spec / checked_round_spec for every Decimal of the domain and every n : i8 including the far-negative shortcut.",
+ "C06": "from_str_spec: for EVERY byte string shorter than 2^56 bytes Decimal::from_str agrees with the reference grammar parser (unbounded integers), value and digit count exact, Err otherwise, Empty only for the empty string, never a panic; SWAR lemmas proved without bv_decide; saturating accumulation; exponent saturation never changes the verdict.",
+ "C07": "string_from_spec / to_string_spec / debug_spec (one canonical text Spec.render), render_parses_back, roundtrip (from_str(to_string(d)) = Ok(d) with identical coefficient and digit count, via C06); serde-as-str glue only exercised (feature build in the correspondence run).",
+ "C08": "partial_cmp_spec / cmp_spec / eq_spec and the integer shapes: comparison of the exact values also when scale alignment overflows; value_order_refl/antisymm/trans/eq_iff; rkyv archive/validate/deserialize only exercised (feature builds rkyv and rkyv,packed).",
+ "C09": "gcd_special_spec (Stein loop terminates within its fuel and returns gcd(|n|,10^e)), as_integer_ratio_spec, ratio_is_reduced (d>0, coprime, same value), ratio_of_equal_values, hash_of_equal_values (equal values feed the same words to any Hasher).",
+ "C10": "rem_core_spec (all scale cases incl. the digit loop), rem_spec / checked_rem_spec / integer shapes, tmod_is_the_remainder (uniqueness of the truncated remainder); the overflow signal is allowed exactly where the statement allows it.",
+ "C11": "display_spec: for every flag/width/precision combination, every mode and profile, Display equals Spec.displaySpec (canonical text of d rounded to min(P,18) digits, zero-extended, sign from d, std padding); Formatter::pad_integral is a transcription shared by model and spec (assumed, exercised).",
+ "C12": "into_float_spec (the model of f64::from / f32::from returns exactly Spec.intoFloat for every Decimal of the domain) and rne_is_nearest (that pattern is the nearest float among all bit patterns, even significand on ties); i128 as fN is assumed round-to-nearest-even.",
+ "C13": "tryFromFloat theorems as listed in the evidence file (Props/C13.lean) for every f64/f32 bit pattern; where a theorem is still missing the check decides that part by correspondence over structured bit patterns (ties, boundaries, subnormals, NaN/inf).",
+ "C14": "into_int_spec for the ten integer types (Ok iff integral and in range, NotAnIntValue iff not integral whatever the range, else ValueOutOfRange), spec_meaning, from_int_spec, try_from_u128_spec.",
+ "C15": "floor/ceil/trunc/fract/neg/abs_spec, value_properties (the statement's inequalities), i128_magnitude_spec (the log10 bit trick equals floor(log10) for every 128-bit value; table below 100000 by kernel evaluation), magnitude_spec (0 for every zero), predicates_spec; num-traits forwarders only exercised (feature build).",
+ "C16": "Specifications of the 256-bit helpers (u128_mul_u128, u256_idiv_u64, u256_idiv_u128, i256_div_mod_floor, i128_shifted_div_mod_floor: a*b = q*m + r, 0 <= r < m, None iff the quotient exceeds i128) as listed in the evidence file; WideRound/Scale lemmas connect them to the correctly rounded results of C02-C04.",
+ "C17": "add_sub_int_eq / checked_add_sub_int_eq (integer bodies literally equal the Decimal body on Decimal::from(i)), same_expectation_* (both shapes satisfy one expectation; determined: a deterministic expectation fixes value-or-panic), same_cmp, mul_int_vs_decimal (the documented exception, both directions); reference/assign forwarders: macro definitions and invocations are part of the skeleton tie and every generated impl is called by the correspondence run.",
+ "C18": "macro_fold_eq: the folding part of Dec! computes exactly Decimal::from_str on the same text (value, digit count, error kind) for every source string; the token path (lexer, TokenStream::to_string) is exercised by compiling generated Dec!(<lit>) programs with rustc and comparing with from_str.",
+ "C19": "isolation: in the state-machine model (storage class and initial value read from the source) after ANY schedule thread t sees the mode it set last, else RoundHalfEven; a process-wide static would make the theorem false. thread_local! at run time is exercised by replaying schedules (exhaustive short ones + random) on real OS threads, each in a fresh process.",
+ "C20": "*_profile_indep (operations equal to a profile-free value), *_same_obs (operations characterised by a deterministic expectation give the same value or both panic in any two profiles), add_overflow_never_silent; operations without any profile parameter are tied by the skeleton (checked_* sites). opt-level and repr(packed) are exercised by multi-profile builds whose outputs are diffed.",
+}
+for pid, text in D.items():
+    t(pid, text + COMMON, TB, TECH)
 checks = []
 for p in props:
     pid = p["id"]
